@@ -1611,6 +1611,25 @@ func f19defaults(e *Env) error {
 				Broken: "theorem C19_default_spec (implementation-only oracle)", Replay: map[string]any{"kind": "default", "v": v.model(), "out": res.Out}})
 		}
 	}
+	// every Go number type a context can hold: a zero of any of them is empty (replaced by default), a non-zero is not
+	for _, tv := range []struct {
+		zero, one any
+	}{{int(0), int(1)}, {int8(0), int8(1)}, {int16(0), int16(-1)}, {int32(0), int32(7)}, {int64(0), int64(1) << 40}, {uint(0), uint(1)}, {uint8(0), uint8(255)}, {uint16(0), uint16(1)},
+		{uint32(0), uint32(1)}, {uint64(0), uint64(1) << 63}, {float32(0), float32(0.5)}, {float64(0), float64(-2)}, {uintptr(0), uintptr(1)}} {
+		for zi, v := range []any{tv.zero, tv.one} {
+			res := renderSrc("{% if v is empty %}E{% else %}N{% endif %}|{{ v|default('\x1d') }}|{% if v %}T{% else %}F{% endif %}|{{ [v]|first|default('\x1d') }}", map[string]any{"v": v})
+			want := "N|" + fmt.Sprint(v) + "|T|" + fmt.Sprint(v)
+			if zi == 0 {
+				want = "E|\x1d|F|\x1d"
+			}
+			r.Seen(fmt.Sprintf("default-kind:%T:%d", v, zi), true)
+			r.Hit("default-number-kinds")
+			if res.Class != "" || res.Out != want {
+				f19violate(r, Violation{Key: "default-empty", What: fmt.Sprintf("%T(%v): `is empty` | default | truth | default of an element render %q (%s), expected %q", v, v, res.Out, res.Class, want),
+					Broken: "theorem C19_default_spec (implementation-only oracle over Go number kinds)", Replay: map[string]any{"kind": "default-kind", "type": fmt.Sprintf("%T", v), "value": fmt.Sprint(v), "got": res.Out, "want": want}})
+			}
+		}
+	}
 	return b.flush()
 }
 
